@@ -1,6 +1,6 @@
 """U6b - RouterProxy::{add_route, shutdown}: the proxy side of the wake-up / message pairing and of stopping.  Verus."""
 import re
-from vf.gen import Unit, Fn, Clause, Hint, Rule, Loop, AppendArg, Edit, GenError
+from vf.gen import Unit, Fn, Clause, Hint, Rule, Loop, AppendArg, Edit, GenError, ClosureFn
 from vf import rustsrc as rs
 
 F = "src/router.rs"
@@ -60,11 +60,26 @@ shutdown = Fn(F, ["impl RouterProxy", "shutdown"], extra_params="comm_guard: &mu
     ],
     rules=[R_LOCK, R_UNLOCK, R_MSG, R_WAKE, R_ACK, MapUnwrap()], safety_props=["C17"])
 
+forward = ClosureFn(F, ["impl RouterProxy", "route_ipc_receiver_to_crossbeam_sender"], "forward",
+    sig="pub fn forwarding_callback<T>(crossbeam_sender: &CbSender<T>, message: OpaqueIpcMessage, Tracked(f): Tracked<&mut F>)",
+    ensures=[
+        Clause("router.forward/ensures.each_routed_message_forwarded_exactly_once",
+               "old(f).decodable && old(f).receiver_alive ==> final(f).forwarded == old(f).forwarded.push(message.mid)", ["C07"]),
+        Clause("router.forward/ensures.nothing_else_forwarded",
+               "old(f).decodable ==> final(f).forwarded == old(f).forwarded || final(f).forwarded == old(f).forwarded.push(message.mid)", ["C07"]),
+    ],
+    rules=[
+        Rule("B33", r"message\.to::<T>\(\)", "message.to::<T>(Tracked(&mut *f))", "OpaqueIpcMessage::to stub", min_count=1),
+        AppendArg("B34", r"crossbeam_sender\.\w+\(", "Tracked(&mut *f)", "crossbeam sender stub (ghost log of what was forwarded)", min_count=1),
+        Rule("D21", r"\bdrop\(", "drop_value(", "core::mem::drop has no vstd spec"),
+    ],
+    safety_props=["C07", "C16", "C17"])
+
 UNIT = Unit(
     name="u6b_proxy",
     prelude=["units/common.rs", "units/u6b_proxy.rs"],
-    groups=[("impl RouterProxy", [add_route, shutdown])],
-    props=["C07", "C17"],
+    groups=[("impl RouterProxy", [add_route, shutdown]), (None, [forward])],
+    props=["C07", "C16", "C17"],
     prelude_clauses={
         "router.shutdown/requires.ack_awaited_only_after_the_shutdown_message": ["C17"],
         "router.shutdown/requires.wakeup_send_unwrap": ["C17"],
